@@ -603,6 +603,14 @@ func TestC02(t *testing.T) {
 	vlib.Enum(h, "tokenseq-exhaustive", true, func(yield func(string) bool) {
 		eachTokenSeqJoin(vlib.Prefixes, vlib.Sigma, 2, " ", h.Mine, yield)
 	}, c02Bytes)
+	vlib.Enum(h, "long-lines-exhaustive", true, func(yield func(string) bool) {
+		vlib.EachLongLine(h.Mine, yield)
+	}, func(src string, info *vlib.Info) *vlib.Failure {
+		f := c02Bytes(src, info)
+		info.Class("long-line")
+		return f
+	})
+	vlib.Rapid(h, "schema-rule-soup", h.N(8000, 300000), vlib.GenRuleSoup, c02Bytes)
 	vlib.Rapid(h, "fixture-mutation", h.N(20000, 1000000), vlib.GenMutation, c02Bytes)
 	vlib.Rapid(h, "token-soup", h.N(10000, 500000), func(t *rapid.T) string {
 		return rapid.SampledFrom(vlib.Prefixes).Draw(t, "prefix") + vlib.GenTokenSoup(t, 14)
